@@ -57,6 +57,12 @@ def fstring_with_nested_string(tree):
 
 
 class C11(ProgramProperty):
+    fuzz_target = 'fuzz_unparse'
+
+    def fuzz_seeds(self):
+        from ..fuzz import program_seeds
+        return program_seeds(extra=[p.replace('H', '(' + c + ')') for p, c in zip(PARENTS, CHILDREN)] + CHILDREN)
+
     id = 'C11'
     technique = ('round-trip property testing: exhaustive (parent, child, side) operator-template sweep on every run + Hypothesis-generated expressions and '
                  'boundary constants; oracle parse(unparse(T)) == T, unparse fixed point, CPython agrees on the rendered text')
@@ -88,7 +94,7 @@ class C11(ProgramProperty):
                   '[a for a in (b, c)]', '[a for a in (lambda: b)]', '[a for a in b if (c if d else e)]', '{**a, b: c}', 'a[b, c]', 'a[(b, c)]', 'a[b:c, d]', 'a[:]', 'a[::]', 'a[b::c]',
                   'a[*b]', 'a[*b, c]', 'f(a)(b)[c].d', 'f(*a, *b, c=d, **e, **g)', 'f(a for a in b)', 'f((a for a in b), c)', "f'{a}{b!r}{c:>{d}}{e=}'", "f'{{}}'", "f'{a:{b}{c}}'",
                   "f'{\"x\"}'", 'f"{\'x\'}"', "f'a\\nb{c}'", "f'{a!s:}'", "'a' f'{b}' 'c'", "f'{a}' \"'\" '\"'", "f\"{x}\\\"\" f\"{'a'}\"", "f'{(lambda: 1)()}'", "f'{a or b}'", "f'{a if b else c}'",
-                  "f'{(a, b)}'", "f'{a,}'", "f'{{{a}}}'"]:
+                  "f'{(a, b)}'", "f'{a,}'", "f'{{{a}}}'", "f'{a:\\n}'", "f'{a:\\\\}'", "f'{a:>{b}\\x41}'", "rf'{a:\\n}'", "f'{a:é}'"]:
             yield {'src': s}
 
     def gen(self, cs, ctx):
@@ -168,9 +174,19 @@ class C11(ProgramProperty):
         if 'C11-F1' in ids and d.get('nested_string_in_field') and (sig in ('rendering_does_not_parse', 'rendering_rejected_by_cpython') or
                                                                      sig.endswith(('str.v/len', 'bytes.v', 'str.v')) or 'str.v' in sig):
             return 'C11-F1'
+        if 'C11-F3' in ids and sig.startswith(('roundtrip_tree_differs', 'rendering_means_something_else_to_cpython')) and 'FormattedValue.format_spec' in d.get('path', '') \
+                and 'str.v' in d.get('path', '') and self.spec_has_escape(d.get('src', '')):
+            return 'C11-F3'
         if 'C11-F2' in ids and sig.endswith('Constant.kind') and 'JoinedStr' in d.get('path', ''):
             return 'C11-F2'
         return None
+
+
+    @staticmethod
+    def spec_has_escape(src):
+        """the finding's region: an f-string with a backslash somewhere (the failure path already says that the
+        differing text is a Constant piece of a format spec)"""
+        return '\\' in src and bool(re.search(r'[fF]', src))
 
 
 PROP = C11()
